@@ -37,7 +37,7 @@ var specs = map[string]*propSpec{
 		ID: "C19", Harness: "qdbsim", Level: "fault_enumeration", Chunk: 40,
 		Quick:    tierParams{Runs: 1200, BudgetS: 60, PerRunS: 60, RaceRuns: 60, RaceBudgetS: 25, ShrinkAttempts: 200, ShrinkS: 60},
 		Thorough: tierParams{Runs: 40000, BudgetS: 900, PerRunS: 120, RaceRuns: 2000, RaceBudgetS: 240, ShrinkAttempts: 600, ShrinkS: 240},
-		Rule: "one case = seeded configuration (thresholds, volatile, load mode, key count) + operation history (put/del/get/browse/flags/sync/nosync/defrag/flush/close/reopen from 1-2 simulated client goroutines) + scheduler seed; every file-system effect of the history is a crash point (all of them in thorough, a seeded subset biased to renames/removes/first-last writes in quick), each recovered in a fresh DB instance and compared with the map model under the 'last synced or later written' relaxation, plus torn last writes and prefix truncations. evaluations = live histories + crash/truncation images recovered. distinct_nontrivial = distinct (schedule-trace hash, final-state hash) pairs among runs with >=2 goroutine switches or >=1 injected fault.",
+		Rule: "one case = seeded configuration (thresholds, volatile, load mode, key count) + operation history (put/del/get/browse/flags/sync/nosync/defrag/flush/close/reopen from 1-2 simulated client goroutines) + scheduler seed; every file-system effect of the history is a crash point (all of them in thorough, a seeded subset biased to renames/removes/first-last writes in quick), each recovered in a fresh DB instance and compared with the map model under the 'last synced or later written' relaxation; after recovery the store must accept further writes, sync, close and reopen exactly; torn last writes are explored and counted but not judged (outside the statement). evaluations = live histories + crash images recovered. distinct_nontrivial = distinct (schedule-trace hash, final-state hash) pairs among runs with >=2 goroutine switches or >=1 injected fault.",
 		Components: map[string][]string{
 			"real":      {"lib/others/qdb (all files, mechanically instrumented: sync->simsync, os->simos, go/chan/select/Sleep->simrt)"},
 			"simulated": append([]string{"disk effects (simos: pass-through to real files + effect log + crash-image materialisation)", "process death (image of effects[0:k], optional torn write k)", "client goroutines"}, commonSim...),
@@ -46,8 +46,8 @@ var specs = map[string]*propSpec{
 		Assumptions: []string{
 			"process-death crash model: every effect handed to the kernel survives, buffered bytes do not; no power-loss reordering of un-synced writes",
 			"interleavings are explored at scheduling-point granularity (shim calls); finer-grained conflicts are left to the race-detector arm",
-			"keys 6-12, values 0-64 KiB, histories <= 80 operations",
+			"keys 3-12, values 0-70000 bytes, histories <= 80 operations, 1-3 client goroutines",
 		},
-		ExpectProbes: []string{"auto_defrag", "forced_defrag", "reopen_clean", "crash_in_sync", "crash_in_defrag", "torn_write_images", "truncation_images", "concurrent_clients"},
+		ExpectProbes: []string{"auto_defrag", "forced_defrag", "reopen_clean", "crash_in_sync", "crash_in_defrag", "crash_in_background_goroutine", "torn_write_images", "concurrent_clients", "peersdb_style_expiry"},
 	},
 }
